@@ -97,15 +97,15 @@ PROPS = {
     },
     'C02': {
         'crate': 'biscuit-auth',
-        'quick': [r'c02_append_(after_block_v0_v0|after_block_v0_v1|third_party_after_block|after_two_blocks_v1)', r'c02_seal_after_block'],
+        'quick': [r'c02_append_(after_block_v0_v0|after_block_v0_v1|third_party_after_block|after_two_blocks_v1|datalog_block_v0_v0)', r'c02_seal_after_block', r'c02_new_token_v[01]'],
         'thorough': [r'c02_\w+'],
         'cap': {'quick': 600, 'thorough': 1800},
         'per_harness': {r'c0[278]x?_\w+': {'unwindset': 'memcmp.0:200'}},
         'jobs': 4, 'mem_gb': 24,
-        'functions': ['format::SerializedBiscuit::{append_serialized,seal,last_block}', 'format::block_signature_version', 'crypto::{sign_block,generate_block_signature_payload_v0,generate_block_signature_payload_v1,generate_seal_signature_payload_v0}', 'crypto::TokenNext::keypair'],
+        'functions': ['format::SerializedBiscuit::{new_inner,append,append_serialized,seal,last_block}', 'crypto::sign_authority_block', 'format::convert::token_block_to_proto_block + prost encoding (empty blocks)', 'format::block_signature_version', 'crypto::{sign_block,generate_block_signature_payload_v0,generate_block_signature_payload_v1,generate_seal_signature_payload_v0}', 'crypto::TokenNext::keypair'],
         'bounds': 'containers of 1..2 blocks (signature versions 0/1), one appended block (first- or third-party, ed25519 or secp256r1 next key, ed25519 or secp256r1 proof secret) or one seal; payloads 2 bytes, signatures 3 bytes, all bytes / key objects / signatures returned by the primitive symbolic',
         'stubs': ['crypto::KeyPair::sign -> oracle (symbolic signature, query recorded)', 'ed25519 public-key derivation -> uninterpreted function', 'p256 PublicKey::to_bytes -> stand-in', 'alloc::fmt::format'],
-        'out': 'the real signatures; building blocks from Datalog (token::Block -> protobuf) and SerializedBiscuit::{new,append}; byte-exact protobuf round trips, base64, UnverifiedBiscuit; together with C01 (verification demands the same specified payloads) this gives "what the API signs is what verification accepts" for these operations only',
+        'out': 'the real signatures; non-empty Datalog blocks (only empty blocks go through token::Block -> protobuf here); byte-exact protobuf round trips, base64, UnverifiedBiscuit; together with C01 (verification demands the same specified payloads) this gives "what the API signs is what verification accepts" for these operations only',
         'level_text': 'Sign/verify symmetry for the container operations: bounded symbolic execution with the signing primitive replaced by a recording oracle; the signed message equals an independent re-implementation of the specified layout.',
     },
     'C08': {
